@@ -24,7 +24,7 @@ def run(ctx):
     specs = [s for s in common.select(ctx, corpus.specs()) if s.tags & {'nul', '8bit', '7bit', 'dot'}]
     pairs = [(s, c) for s in specs for c in configs(ctx.tier) if not compatible(s, c)]
 
-    NULSPECS = ('nul1', 'nul_jam', 'nul_end', 'nul_end2', 'high1')
+    NULSPECS = ('nul1', 'nul_jam', 'nul_end', 'nul_end2', 'high1', 'nul_share4', 'nul_share2', 'nul_share_first')
 
     def e1_filter(spec, cfg):
         if quick:
